@@ -2,14 +2,16 @@
 
 package keeper
 
-// VerifFailpoint is a verification-only fault-injection hook (build tag "verif"). When set, it is
-// consulted at named points; a non-nil error is returned from the surrounding function, and the
-// hook may also panic to exercise recovery paths.
-var VerifFailpoint func(name string) error
+import sdk "github.com/cosmos/cosmos-sdk/types"
 
-func verifFailpoint(name string) error {
+// VerifFailpoint is a verification-only fault-injection hook (build tag "verif"). When set, it is
+// consulted at named points (the context lets a harness tell chains apart by chain id); a non-nil error is returned from the surrounding function, and the
+// hook may also panic to exercise recovery paths.
+var VerifFailpoint func(ctx sdk.Context, name string) error
+
+func verifFailpoint(ctx sdk.Context, name string) error {
 	if VerifFailpoint != nil {
-		return VerifFailpoint(name)
+		return VerifFailpoint(ctx, name)
 	}
 	return nil
 }
